@@ -44,10 +44,34 @@ SPEC = {"__or__": lambda a, b: a | b, "__and__": lambda a, b: a & b, "__sub__": 
 CORE = {"or_shapes": "__or__", "and_shapes": "__and__"}
 
 
+NONEV = ("none",)
+
+
+class World:
+    """one path condition: the admissible point assignments G, the values of the local names, and whether this path
+    is the one on which the recombination core returned no boundary piece (nob = the core's operator)"""
+    __slots__ = ("G", "env", "nob")
+
+    def __init__(self, G, env, nob=None):
+        self.G, self.env, self.nob = G, env, nob
+
+    def with_G(self, G):
+        return World(G, self.env, self.nob)
+
+    def fork(self, **kw):
+        w = World(self.G, dict(self.env), self.nob)
+        for k, v in kw.items():
+            setattr(w, k, v)
+        return w
+
+
 class TT:
+    """Truth-table evaluator of one operator method.  Paths are kept apart as *worlds* (path condition on the point
+    assignments + local values), private helpers of the shape module are inlined (to depth 4), so that the table does
+    not depend on how the method is cut into helpers, guards, temporaries or conditional expressions."""
+
     def __init__(self, ctx, fn):
         self.ctx, self.fn = ctx, fn
-        self.inf = ctx.typer.of(fn)
         self.cls, self.op = fn.cls, fn.name
         ps = fn.params
         self.selfn = ps[0]
@@ -63,206 +87,330 @@ class TT:
             self.G0 = ALL - self.A
         if self.cls == "WholeShape":
             self.G0 = self.A
-        self.env = {self.selfn: self.A}
-        if self.othn:
-            self.env[self.othn] = B
-        self.results = []      # (return node, text, G, wrong assignments)
+        self.results = []      # (return node, text, G, wrong assignments, no-boundary exit?)
 
     def run(self):
-        self.block(self.fn.node.body, self.G0)
+        env = {self.selfn: self.A}
+        if self.othn:
+            env[self.othn] = B
+        falls, rets = self.exec_block(self.fn, self.fn.node.body, [World(self.G0, env)], 0)
+        merged = {}
+        for w, val, node in rets:
+            self.finish(w, val, node, merged)
+        self.results = list(merged.values())
         return self.results
 
-    # -- guards
-    def guard(self, test, G):
-        """(G_true, G_false)"""
+    def finish(self, w, val, node, merged):
+        txt = U(node.value) if node.value is not None else "None"
+        if w.nob is not None:
+            # a result without any boundary curve is Empty or Whole; it must be the only one consistent with the core
+            want = ALL if w.nob == "__or__" else frozenset()
+            ok = (val == want) and w.nob == self.op
+            key = (id(node), True)
+            merged[key] = (node, txt + "   [no boundary piece survives]", "const", [] if ok else ["no-boundary constant"], True)
+            return
+        if not isinstance(val, frozenset):
+            raise Undecided(f"return value `{txt[:40]}` is not a shape value")
+        want = SPEC[self.op](self.A, B)
+        wrong = sorted(x for x in w.G if (x in val) != (x in want))
+        key = (id(node), False)
+        if key in merged:
+            _, _, G0, wr0, _ = merged[key]
+            merged[key] = (node, txt, G0 | w.G, sorted(set(wr0) | set(wrong)), False)
+        else:
+            merged[key] = (node, txt, w.G, wrong, False)
+
+    # -- statements
+    def exec_block(self, fn, body, worlds, depth):
+        rets = []
+        worlds = [w for w in worlds if w.G or w.nob is not None]
+        for st in body:
+            if not worlds:
+                break
+            nxt = []
+            for w in worlds:
+                out, r = self.exec_stmt(fn, st, w, depth)
+                nxt += [x for x in out if x.G]
+                rets += [x for x in r if x[0].G]
+            worlds = nxt
+        return worlds, rets
+
+    def exec_stmt(self, fn, st, w, depth):
+        if isinstance(st, (ast.Assert, ast.Pass)) or (isinstance(st, ast.Expr) and isinstance(st.value, ast.Constant)):
+            return [w], []
+        if isinstance(st, ast.Return) and isinstance(st.value, ast.IfExp):
+            st = ast.copy_location(ast.If(test=st.value.test,
+                                          body=[ast.copy_location(ast.Return(value=st.value.body), st)],
+                                          orelse=[ast.copy_location(ast.Return(value=st.value.orelse), st)]), st)
+        if isinstance(st, ast.If):
+            wt, wf = self.guard(fn, st.test, w, depth)
+            ft, r1 = self.exec_block(fn, st.body, wt, depth)
+            ff, r2 = self.exec_block(fn, st.orelse, wf, depth)
+            return ft + ff, r1 + r2
+        if isinstance(st, ast.Assign) and len(st.targets) == 1:
+            out = []
+            for w2, val in self.eval_multi(fn, st.value, w, depth):
+                w3 = w2.fork()
+                self.bind(st.targets[0], val, w3)
+                out.append(w3)
+            return out, []
+        if isinstance(st, ast.AnnAssign) and st.value is not None:
+            out = []
+            for w2, val in self.eval_multi(fn, st.value, w, depth):
+                w3 = w2.fork()
+                self.bind(st.target, val, w3)
+                out.append(w3)
+            return out, []
+        if isinstance(st, ast.AugAssign) and isinstance(st.target, ast.Name):
+            w3 = w.fork()
+            w3.env[st.target.id] = self.expr(fn, ast.BinOp(left=ast.Name(id=st.target.id, ctx=ast.Load()), op=st.op,
+                                                            right=st.value), w)
+            return [w3], []
+        if isinstance(st, ast.Return):
+            if st.value is None:
+                return [], [(w, NONEV, st)]
+            return [], [(w2, val, st) for w2, val in self.eval_multi(fn, st.value, w, depth)]
+        if isinstance(st, ast.Raise):
+            return [], []
+        if isinstance(st, ast.Expr):
+            return [w2 for w2, _ in self.eval_multi(fn, st.value, w, depth)], []
+        raise Undecided(f"statement `{U(st)[:40]}`")
+
+    def bind(self, target, val, w):
+        if isinstance(target, ast.Name):
+            w.env[target.id] = val
+        elif isinstance(target, (ast.Tuple, ast.List)) and isinstance(val, tuple) and val and val[0] == "tuple" \
+                and len(val[1]) == len(target.elts):
+            for t, v in zip(target.elts, val[1]):
+                self.bind(t, v, w)
+        else:
+            raise Undecided(f"assignment to `{U(target)[:30]}`")
+
+    # -- helper inlining
+    def inlinable(self, fn, call):
+        inf = self.ctx.typer.of(fn)
+        tgs = inf.targets(call, ("call",))
+        if len(tgs) != 1:
+            return None
+        t = tgs[0]
+        if t.mod != "shape" or t.name in CORE or t.name in SPEC or t.qname in ("shape.ShapeFromJordans", "shape.DivideConnecteds"):
+            return None
+        if t.cls == "FollowPath" or t.cls == "IntegrateShape":
+            return None
+        if not (t.name.startswith("_") and not t.name.endswith("__")):
+            return None
+        return t
+
+    def eval_multi(self, fn, e, w, depth):
+        """[(world, value)]: a call of a private helper of the shape module is evaluated by inlining its body"""
+        if isinstance(e, ast.Call):
+            t = self.inlinable(fn, e)
+            if t is not None:
+                if depth >= 4:
+                    raise Undecided(f"helper nesting too deep at `{U(e)[:40]}`")
+                names = [a.arg for a in t.node.args.posonlyargs + t.node.args.args]
+                env = {}
+                args = [self.expr(fn, a, w) for a in e.args]
+                if t.kind in ("method", "getter") and isinstance(e.func, ast.Attribute):
+                    args = [self.expr(fn, e.func.value, w)] + args
+                elif t.kind == "class":
+                    args = [("class", t.cls)] + args
+                for n_, v in zip(names, args):
+                    env[n_] = v
+                for k in e.keywords:
+                    if k.arg in names:
+                        env[k.arg] = self.expr(fn, k.value, w)
+                defaults = t.node.args.defaults
+                for n_, d in zip(names[len(names) - len(defaults):], defaults):
+                    if n_ not in env:
+                        env[n_] = self.expr(t, d, World(w.G, {}, w.nob))
+                if set(names) - set(env):
+                    raise Undecided(f"helper call `{U(e)[:40]}`: unbound parameters")
+                falls, rets = self.exec_block(t, t.node.body, [World(w.G, env, w.nob)], depth + 1)
+                out = [(World(w2.G, w.env, w2.nob), val) for w2, val, _ in rets]
+                out += [(World(w2.G, w.env, w2.nob), NONEV) for w2 in falls]
+                return out
+        return [(w, self.expr(fn, e, w))]
+
+    # -- guards: ([worlds where the test holds], [worlds where it does not])
+    def guard(self, fn, test, w, depth=0):
         test, neg = pat._strip_not(test)
-        gt, gf = self._guard(test, G)
-        return (gf, gt) if neg else (gt, gf)
+        t, f = self._guard(fn, test, w, depth)
+        return (f, t) if neg else (t, f)
 
-    def _is_core(self, e):
-        return isinstance(e, ast.Name) and isinstance(self.env.get(e.id), tuple) and self.env[e.id][0] == "core"
+    def _is_core(self, v):
+        return isinstance(v, tuple) and v and v[0] == "core"
 
-    def _guard(self, test, G):
+    def _guard(self, fn, test, w, depth):
         if isinstance(test, ast.BoolOp):
-            # short-circuit composition; the no-boundary test is only understood on its own
             if isinstance(test.op, ast.Or):
-                gt_all, rest = frozenset(), G
+                true, rest = [], [w]
                 for v in test.values:
-                    gt, gf = self.guard(v, rest)
-                    if isinstance(gt, tuple) or isinstance(gf, tuple):
-                        raise Undecided(f"guard `{U(test)[:50]}`")
-                    gt_all, rest = gt_all | gt, gf
-                return gt_all, rest
-            gf_all, rest = frozenset(), G
+                    nrest = []
+                    for r in rest:
+                        t, f = self.guard(fn, v, r, depth)
+                        true += t
+                        nrest += f
+                    rest = nrest
+                return true, rest
+            false, rest = [], [w]
             for v in test.values:
-                gt, gf = self.guard(v, rest)
-                if isinstance(gt, tuple) or isinstance(gf, tuple):
-                    raise Undecided(f"guard `{U(test)[:50]}`")
-                gf_all, rest = gf_all | gf, gt
-            return rest, gf_all
-        if self._is_core(test):                                      # `if new_jordans:` -- some boundary piece survives
-            return G, ("noboundary", self.env[test.id][1], G)
-        if isinstance(test, ast.Call) and isinstance(test.func, ast.Name) and test.func.id in ("len", "bool") \
-                and len(test.args) == 1 and self._is_core(test.args[0]):
-            return G, ("noboundary", self.env[test.args[0].id][1], G)
+                nrest = []
+                for r in rest:
+                    t, f = self.guard(fn, v, r, depth)
+                    false += f
+                    nrest += t
+                rest = nrest
+            return rest, false
+        # truthiness / emptiness / None-ness of a value
+        probe = None
+        if isinstance(test, ast.Compare) and len(test.ops) == 1 and isinstance(test.ops[0], (ast.Is, ast.IsNot, ast.Eq, ast.NotEq)) \
+                and isinstance(test.comparators[0], ast.Constant) and test.comparators[0].value is None:
+            v = self.try_expr(fn, test.left, w)
+            if v is not None:
+                isnone = v == NONEV
+                pos = isinstance(test.ops[0], (ast.Is, ast.Eq))
+                return ([w], []) if isnone == pos else ([], [w])
         if isinstance(test, ast.Compare) and len(test.ops) == 1 and isinstance(test.left, ast.Call) \
                 and isinstance(test.left.func, ast.Name) and test.left.func.id == "len" and test.left.args \
-                and self._is_core(test.left.args[0]) and isinstance(test.comparators[0], ast.Constant):
+                and isinstance(test.comparators[0], ast.Constant):
+            v = self.try_expr(fn, test.left.args[0], w)
             c, op = test.comparators[0].value, test.ops[0]
-            nob = ("noboundary", self.env[test.left.args[0].id][1], G)
-            if (c == 0 and isinstance(op, (ast.Eq, ast.LtE))) or (c == 1 and isinstance(op, ast.Lt)):
-                return nob, G
-            if (c == 0 and isinstance(op, (ast.NotEq, ast.Gt))) or (c == 1 and isinstance(op, ast.GtE)):
-                return G, nob
+            empty_true = (c == 0 and isinstance(op, (ast.Eq, ast.LtE))) or (c == 1 and isinstance(op, ast.Lt))
+            empty_false = (c == 0 and isinstance(op, (ast.NotEq, ast.Gt))) or (c == 1 and isinstance(op, ast.GtE))
+            if v is not None and (empty_true or empty_false):
+                probe = (v, empty_true)
+        elif isinstance(test, ast.Call) and isinstance(test.func, ast.Name) and test.func.id in ("len", "bool") and len(test.args) == 1:
+            v = self.try_expr(fn, test.args[0], w)
+            if v is not None:
+                probe = (v, False)
+        elif isinstance(test, (ast.Name, ast.Attribute, ast.Subscript)):
+            v = self.try_expr(fn, test, w)
+            if v is not None and not isinstance(v, frozenset):
+                probe = (v, False)
+        if probe is not None:
+            v, test_is_empty = probe
+            if self._is_core(v):                 # some boundary piece survives / none does
+                some, none = [w.fork(nob=None)], [w.fork(nob=v[1])]
+                return (none, some) if test_is_empty else (some, none)
+            if v == NONEV:
+                empty = True
+            elif isinstance(v, tuple) and v and v[0] in ("tuple", "list"):
+                empty = len(v[1]) == 0
+            elif isinstance(v, tuple) and v and v[0] == "bool":
+                empty = not v[1]
+            else:
+                raise Undecided(f"guard `{U(test)[:50]}`")
+            holds = empty if test_is_empty else not empty
+            return ([w], []) if holds else ([], [w])
         if isinstance(test, ast.Call) and isinstance(test.func, ast.Name) and test.func.id == "isinstance" \
                 and len(test.args) == 2:
             v, c = test.args
             names = [c.id] if isinstance(c, ast.Name) else [x.id for x in c.elts if isinstance(x, ast.Name)] \
                 if isinstance(c, ast.Tuple) else []
-            if isinstance(v, ast.Name) and v.id in (self.othn, self.selfn):
-                val = self.env[v.id]
+            val = self.try_expr(fn, v, w)
+            if isinstance(val, frozenset):
                 if names == ["WholeShape"]:
-                    return frozenset(x for x in G if x in val), G
+                    return [w.with_G(frozenset(x for x in w.G if x in val))], [w]
                 if names == ["EmptyShape"]:
-                    return frozenset(x for x in G if x not in val), G
-            return G, G     # other type tests (also Empty-or-Whole tuples) do not restrict the point assignments
-        if isinstance(test, ast.Compare) and len(test.ops) == 1 and isinstance(test.ops[0], ast.In):
-            l, r = test.left, test.comparators[0]
-            try:
-                lv, rv = self.expr(l), self.expr(r)
-            except Undecided:
-                raise
+                    return [w.with_G(frozenset(x for x in w.G if x not in val))], [w]
+            return [w], [w]     # other type tests (also Empty-or-Whole tuples) do not restrict the point assignments
+        if isinstance(test, ast.Compare) and len(test.ops) == 1 and isinstance(test.ops[0], (ast.In, ast.NotIn)):
+            lv, rv = self.expr(fn, test.left, w), self.expr(fn, test.comparators[0], w)
             if isinstance(lv, frozenset) and isinstance(rv, frozenset):
-                return frozenset(x for x in G if (x not in lv) or (x in rv)), G      # l subset of r
-        if isinstance(test, ast.Compare) and len(test.ops) == 1 and isinstance(test.ops[0], (ast.Eq, ast.Is)):
-            l, r = test.left, test.comparators[0]
-            if isinstance(l, ast.Call) and isinstance(l.func, ast.Name) and l.func.id == "len" and l.args \
-                    and isinstance(l.args[0], ast.Name) and isinstance(self.env.get(l.args[0].id), tuple) \
-                    and self.env[l.args[0].id][0] == "core" and isinstance(r, ast.Constant) and r.value == 0:
-                return ("noboundary", self.env[l.args[0].id][1], G), G
-        if isinstance(test, ast.UnaryOp):
-            pass
+                sub = [w.with_G(frozenset(x for x in w.G if (x not in lv) or (x in rv)))]      # l subset of r
+                return (sub, [w]) if isinstance(test.ops[0], ast.In) else ([w], sub)
         raise Undecided(f"guard `{U(test)[:50]}`")
 
-    # -- statements; returns the assignments that fall through
-    def block(self, body, G):
-        for st in body:
-            if not G and not isinstance(G, tuple):
-                return G
-            if isinstance(st, (ast.Assert, ast.Pass)) or (isinstance(st, ast.Expr) and isinstance(st.value, ast.Constant)):
-                continue
-            if isinstance(st, ast.Return) and isinstance(st.value, ast.IfExp):
-                st = ast.copy_location(ast.If(test=st.value.test,
-                                              body=[ast.copy_location(ast.Return(value=st.value.body), st)],
-                                              orelse=[ast.copy_location(ast.Return(value=st.value.orelse), st)]), st)
-            if isinstance(st, ast.If):
-                gt, gf = self.guard(st.test, G)
-                if isinstance(gf, tuple):
-                    # `if new_jordans: <boundary case> else / afterwards: <no-boundary exit>`
-                    ft = self.block(st.body, gt)
-                    rest = st.orelse if st.orelse else body[body.index(st) + 1:]
-                    if ft and not st.orelse:
-                        raise Undecided("the boundary case falls through into the no-boundary exit")
-                    self.nob_block(rest, gf)
-                    if st.orelse:
-                        G = ft
-                        continue
-                    return frozenset()
-                if isinstance(gt, tuple):
-                    ft = self.nob_block(st.body, gt)
-                else:
-                    ft = self.block(st.body, gt)
-                ff = self.block(st.orelse, gf) if st.orelse else gf
-                if isinstance(gt, tuple):
-                    G = ff          # the no-boundary exit must return
-                else:
-                    # assignments that fall through either branch
-                    G = frozenset(ft) | frozenset(ff) if st.orelse else (frozenset(ft) | frozenset(gf))
-                    if not st.orelse and not ft:
-                        G = gf
-                continue
-            if isinstance(st, ast.Assign) and len(st.targets) == 1 and isinstance(st.targets[0], ast.Name):
-                self.env[st.targets[0].id] = self.value(st.value)
-                continue
-            if isinstance(st, ast.AnnAssign) and isinstance(st.target, ast.Name) and st.value is not None:
-                self.env[st.target.id] = self.value(st.value)
-                continue
-            if isinstance(st, ast.AugAssign) and isinstance(st.target, ast.Name):
-                self.env[st.target.id] = self.expr(ast.BinOp(left=ast.Name(id=st.target.id, ctx=ast.Load()), op=st.op,
-                                                             right=st.value))
-                continue
-            if isinstance(st, ast.Return):
-                val = self.expr(st.value)
-                if not isinstance(val, frozenset):
-                    raise Undecided(f"return value `{U(st.value)[:40]}` is not a shape value")
-                want = SPEC[self.op](self.A, B)
-                wrong = sorted(x for x in G if (x in val) != (x in want))
-                self.results.append((st, U(st.value), G, wrong, False))
-                return frozenset()
-            if isinstance(st, ast.Raise):
-                return frozenset()
-            raise Undecided(f"statement `{U(st)[:40]}`")
-        return G
+    def try_expr(self, fn, e, w):
+        try:
+            return self.expr(fn, e, w)
+        except Undecided:
+            return None
 
-    def nob_block(self, body, gt):
-        _, core, G = gt
-        rets = [st for st in body if isinstance(st, ast.Return)]
-        if len(rets) != 1 or len(body) != 1:
-            raise Undecided("no-boundary exit is not a single return")
-        val = self.expr(rets[0].value)
-        # a result without any boundary curve is Empty or Whole; it must be the only one consistent with the core
-        want = ALL if core == "__or__" else frozenset()
-        ok = (val == want) and core == self.op
-        self.results.append((rets[0], U(rets[0].value) + "   [no boundary piece survives]", "const",
-                             [] if ok else ["no-boundary constant"], True))
-        return frozenset()
-
-    # -- expressions
-    def value(self, e):
-        """value of an assigned expression: a shape value, or a collection of curves ('curves', region)"""
-        c = self.curves(e)
-        if c is not None:
-            return ("curves", c)
-        return self.expr(e)
-
-    def expr(self, e):
-        inf = self.inf
+    # -- expressions (single-valued)
+    def expr(self, fn, e, w):
+        inf = self.ctx.typer.of(fn)
+        env = w.env
+        if isinstance(e, ast.Constant):
+            if e.value is None:
+                return NONEV
+            if isinstance(e.value, bool):
+                return ("bool", e.value)
+            raise Undecided(U(e)[:40])
         if isinstance(e, ast.Name):
-            if e.id in self.env:
-                return self.env[e.id]
+            if e.id in env:
+                return env[e.id]
+            if e.id in ("WholeShape", "EmptyShape", "SimpleShape", "ConnectedShape", "DisjointShape"):
+                return ("class", e.id)
             raise Undecided(f"name {e.id}")
+        if isinstance(e, (ast.Tuple, ast.List)) and not any(isinstance(x, ast.Starred) for x in e.elts):
+            c = self.curves(fn, e, w)
+            if c is not None:
+                return ("curves", c)
+            return ("tuple", tuple(self.expr(fn, x, w) for x in e.elts))
+        if isinstance(e, ast.Subscript) and isinstance(e.slice, ast.Constant) and isinstance(e.slice.value, int):
+            c = self.curves(fn, e, w)
+            if c is not None:
+                return ("curves", c)
+            v = self.expr(fn, e.value, w)
+            if isinstance(v, tuple) and v and v[0] in ("tuple", "list"):
+                try:
+                    return v[1][e.slice.value]
+                except IndexError:
+                    raise Undecided(U(e)[:40])
+            raise Undecided(U(e)[:40])
+        if isinstance(e, ast.IfExp):
+            t, f = self.guard(fn, e.test, w)
+            t, f = [x for x in t if x.G], [x for x in f if x.G]
+            if t and not f:
+                return self.expr(fn, e.body, t[0])
+            if f and not t:
+                return self.expr(fn, e.orelse, f[0])
+            a, b = self.expr(fn, e.body, w), self.expr(fn, e.orelse, w)
+            if a == b:
+                return a
+            raise Undecided(f"conditional expression `{U(e)[:40]}` inside an expression")
         if isinstance(e, ast.Call):
             t = inf.typeof(e)
             tg = pat.call_targets(inf, e)
             f = e.func
             if isinstance(f, ast.Name) and f.id in ("WholeShape", "EmptyShape") and not e.args:
                 return ALL if f.id == "WholeShape" else frozenset()
-            if isinstance(f, ast.Name) and f.id == "copy" and len(e.args) == 1:
-                return self.expr(e.args[0])
+            if isinstance(f, ast.Name) and isinstance(env.get(f.id), tuple) and env[f.id][0] == "class" and not e.args \
+                    and env[f.id][1] in ("WholeShape", "EmptyShape"):
+                return ALL if env[f.id][1] == "WholeShape" else frozenset()       # singleton class passed as a value
+            if isinstance(f, ast.Name) and f.id in ("copy", "deepcopy") and len(e.args) >= 1:
+                return self.expr(fn, e.args[0], w)
             if isinstance(f, ast.Attribute) and f.attr in ("__copy__", "__deepcopy__"):
-                return self.expr(f.value)
+                return self.expr(fn, f.value, w)
             if any(q.split(".")[-1] in CORE for q in tg):
                 core = CORE[[q for q in tg if q.split(".")[-1] in CORE][0].split(".")[-1]]
-                names = [a.id for a in e.args if isinstance(a, ast.Name)]
-                if sorted(names) != sorted([self.selfn, self.othn]) or len(e.args) != 2:
+                vals = [self.expr(fn, a, w) for a in e.args] + [self.expr(fn, k.value, w) for k in e.keywords]
+                if len(vals) != 2 or sorted(vals, key=str) != sorted([self.A, B], key=str):
                     raise Undecided(f"core called with {U(e)[:50]}")
                 return ("core", core)
             if "shape.ShapeFromJordans" in tg and len(e.args) == 1:
                 a = e.args[0]
-                if isinstance(a, ast.Name) and isinstance(self.env.get(a.id), tuple) and self.env[a.id][0] == "core":
-                    return SPEC[self.env[a.id][1]](self.A, B)       # geometric core, assumed
-                if isinstance(a, ast.Name) and isinstance(self.env.get(a.id), tuple) and self.env[a.id][0] == "curves":
-                    return self.env[a.id][1]
-                v = self.curves(a)
+                av = self.try_expr(fn, a, w)
+                if self._is_core(av):
+                    if w.nob is not None:
+                        raise Undecided("ShapeFromJordans of an empty curve list")
+                    return SPEC[av[1]](self.A, B)       # geometric core, assumed
+                if isinstance(av, tuple) and av and av[0] == "curves":
+                    return av[1]
+                v = self.curves(fn, a, w)
                 if v is not None:
                     return v
                 raise Undecided(f"ShapeFromJordans({U(a)[:40]})")
             if isinstance(t, str) and t in ("SimpleShape", "ConnectedShape", "DisjointShape") and len(e.args) == 1:
-                a = self.expr(e.args[0]) if not self._is_curve_expr(e.args[0]) else self.curves(e.args[0])
-                if t == "SimpleShape":
-                    if isinstance(a, frozenset):
-                        return a
-                if isinstance(a, tuple) and a[0] == "list":
+                c = self.curves(fn, e.args[0], w)
+                a = c if c is not None else self.expr(fn, e.args[0], w)
+                if isinstance(a, tuple) and a and a[0] == "curves":
+                    a = a[1]
+                if t == "SimpleShape" and isinstance(a, frozenset):
+                    return a
+                if isinstance(a, tuple) and a and a[0] == "list":
                     vals = a[1]
                     out = vals[0]
                     for v in vals[1:]:
@@ -270,48 +418,74 @@ class TT:
                     return out
                 raise Undecided(f"constructor {t}({U(e.args[0])[:30]})")
             if isinstance(f, ast.Attribute) and f.attr in SPEC and len(e.args) <= 1:
-                l = self.expr(f.value)
-                r = self.expr(e.args[0]) if e.args else None
-                return SPEC[f.attr](l, r)
+                l = self.expr(fn, f.value, w)
+                r = self.expr(fn, e.args[0], w) if e.args else None
+                if isinstance(l, frozenset) and (r is None or isinstance(r, frozenset)):
+                    return SPEC[f.attr](l, r)
+            if isinstance(f, ast.Name) and f.id in ("tuple", "list"):
+                v = self.subshape_list(fn, e, w)
+                if v is not None:
+                    return v
+                c = self.curves(fn, e, w)
+                if c is not None:
+                    return ("curves", c)
             raise Undecided(f"call `{U(e)[:40]}`")
-        if isinstance(e, (ast.ListComp, ast.GeneratorExp)) or (
-                isinstance(e, ast.Call) and isinstance(e.func, ast.Name) and e.func.id in ("tuple", "list")):
-            v = self.subshape_list(e)
+        if isinstance(e, (ast.ListComp, ast.GeneratorExp)):
+            v = self.subshape_list(fn, e, w)
             if v is not None:
                 return v
+            c = self.curves(fn, e, w)
+            if c is not None:
+                return ("curves", c)
             raise Undecided(U(e)[:40])
         if isinstance(e, ast.UnaryOp) and isinstance(e.op, (ast.Invert, ast.USub)):
-            v = self.expr(e.operand)
+            c = self.curves(fn, e, w)
+            if c is not None:
+                return ("curves", c)
+            v = self.expr(fn, e.operand, w)
             if isinstance(v, frozenset):
                 return ALL - v
+            if isinstance(v, tuple) and v and v[0] == "curves":
+                return ("curves", ALL - v[1])       # reversing the curve(s) denotes the complement
             raise Undecided(U(e)[:40])
         if isinstance(e, ast.BinOp):
             op = {ast.BitOr: "__or__", ast.BitAnd: "__and__", ast.Sub: "__sub__", ast.BitXor: "__xor__",
                   ast.Add: "__add__", ast.Mult: "__mul__"}.get(type(e.op))
             if op is None:
                 raise Undecided(U(e)[:40])
-            l, r = self.expr(e.left), self.expr(e.right)
+            l, r = self.expr(fn, e.left, w), self.expr(fn, e.right, w)
             if isinstance(l, frozenset) and isinstance(r, frozenset):
                 return SPEC[op](l, r)
             raise Undecided(U(e)[:40])
+        if isinstance(e, ast.Attribute):
+            c = self.curves(fn, e, w)
+            if c is not None:
+                return ("curves", c)
         raise Undecided(U(e)[:40])
 
-    def _is_curve_expr(self, e):
-        return self.curves(e) is not None
-
-    def curves(self, a):
-        """value of a shape built from a collection of curves derived from self/other:
+    def curves(self, fn, a, w):
+        """value of a shape built from a collection of curves derived from a shape value X held in a local name:
              (~j for j in X.jordans) / tuple(...) / ~X.jordans[0]  -> complement of X
-             X.jordans / (copy(j) for j in X.jordans)             -> X"""
+             X.jordans / (copy(j) for j in X.jordans) / map(copy, X.jordans) -> X"""
+        env = w.env
         if isinstance(a, ast.Call) and isinstance(a.func, ast.Name) and a.func.id in ("tuple", "list") and len(a.args) == 1:
             a = a.args[0]
-        if isinstance(a, ast.Name) and isinstance(self.env.get(a.id), tuple) and self.env[a.id][0] == "curves":
-            return self.env[a.id][1]
+        if isinstance(a, ast.Name) and isinstance(env.get(a.id), tuple) and env[a.id] and env[a.id][0] == "curves":
+            return env[a.id][1]
 
         def owner(x):
             if isinstance(x, ast.Attribute) and x.attr == "jordans" and isinstance(x.value, ast.Name) \
-                    and x.value.id in (self.selfn, self.othn):
-                return self.env[x.value.id]
+                    and isinstance(env.get(x.value.id), frozenset):
+                return env[x.value.id]
+            return None
+
+        def single(x):      # the one curve of a SimpleShape: X.jordans[0] with X of static type SimpleShape
+            if isinstance(x, ast.Subscript) and owner(x.value) is not None:
+                cs = self.ctx.typer.classes_of(self.ctx.typer.of(fn).typeof(x.value.value))
+                if cs and all(c == "SimpleShape" for c in cs):
+                    return owner(x.value)
+                if isinstance(x.value.value, ast.Name) and x.value.value.id == fn.params[0] and fn.cls == "SimpleShape":
+                    return owner(x.value)
             return None
         if isinstance(a, (ast.GeneratorExp, ast.ListComp)) and len(a.generators) == 1 and not a.generators[0].ifs:
             g = a.generators[0]
@@ -326,37 +500,37 @@ class TT:
         if isinstance(a, ast.Call) and isinstance(a.func, ast.Name) and a.func.id == "map" and len(a.args) == 2 \
                 and isinstance(a.args[0], ast.Name) and a.args[0].id in ("copy", "deepcopy") and owner(a.args[1]) is not None:
             return owner(a.args[1])
-        if isinstance(a, ast.UnaryOp) and isinstance(a.op, ast.Invert) and isinstance(a.operand, ast.Subscript) \
-                and self.cls == "SimpleShape":
-            own = owner(a.operand.value)
-            if own is not None:
-                return ALL - own
-        if isinstance(a, ast.Subscript) and self.cls == "SimpleShape" and owner(a.value) is not None:
-            return owner(a.value)       # the one curve of a SimpleShape
+        if isinstance(a, ast.UnaryOp) and isinstance(a.op, ast.Invert):
+            inner = single(a.operand)
+            if inner is not None:
+                return ALL - inner
+            if isinstance(a.operand, ast.Name) and isinstance(env.get(a.operand.id), tuple) and env[a.operand.id] \
+                    and env[a.operand.id][0] == "curves":
+                return ALL - env[a.operand.id][1]
+        s1 = single(a)
+        if s1 is not None:
+            return s1
         if isinstance(a, ast.Call) and isinstance(a.func, ast.Name) and a.func.id == "copy" and len(a.args) == 1:
-            return self.curves(a.args[0])
+            return self.curves(fn, a.args[0], w)
         own = owner(a)
         if own is not None:
             return own
         return None
 
-    def subshape_list(self, e):
+    def subshape_list(self, fn, e, w):
         """[f(s) for s in self.subshapes] in a composite class -> ('list', [f(S1), f(S2)])"""
         if isinstance(e, ast.Call):
             e = e.args[0] if e.args else e
         if isinstance(e, (ast.ListComp, ast.GeneratorExp)) and len(e.generators) == 1 and not e.generators[0].ifs:
             g = e.generators[0]
-            if isinstance(g.iter, ast.Attribute) and g.iter.attr == "subshapes" and pat.is_name(g.iter.value, self.selfn) \
-                    and self.cls in ("ConnectedShape", "DisjointShape") and isinstance(g.target, ast.Name):
+            if isinstance(g.iter, ast.Attribute) and g.iter.attr == "subshapes" and isinstance(g.iter.value, ast.Name) \
+                    and w.env.get(g.iter.value.id) == self.A and self.cls in ("ConnectedShape", "DisjointShape") \
+                    and isinstance(g.target, ast.Name) and fn is self.fn:
                 vals = []
                 for sv in (S1, S2):
-                    saved = self.env.get(g.target.id)
-                    self.env[g.target.id] = sv
-                    vals.append(self.expr(e.elt))
-                    if saved is None:
-                        self.env.pop(g.target.id)
-                    else:
-                        self.env[g.target.id] = saved
+                    w2 = w.fork()
+                    w2.env[g.target.id] = sv
+                    vals.append(self.expr(fn, e.elt, w2))
                 return ("list", vals)
         return None
 
